@@ -68,5 +68,5 @@ func runSelftest() int {
 	return 0
 }
 
-var selftestHold = []string{"Basic", "Index", "Unicode", "Alias", "DB", "Corpus"}
+var selftestHold = []string{"Basic", "Index", "Unicode", "Alias", "BinStruct", "DB", "Corpus"}
 var selftestBuggy = []string{"Buggy"}
